@@ -30,6 +30,8 @@ def render_op(o):
         return "OCreateIndex"
     if k == "add_unseen":
         return f"(OAddUnseen {rgs(o[1])})"
+    if k == "replace":
+        return f"(OReplace {rgs(o[1])})"
     raise ValueError(k)
 
 
@@ -99,7 +101,7 @@ class HistorySuite(Suite):
     runf = "run20"
     deterministic = False     # a disagreement is turned into a failing input by the Python property monitor
     rule = ("exhaustive: every sequence of <= 3 (quick) / <= 4 (thorough) operations from a 12-operation alphabet "
-            "over proteins A,B,C (+unknown X), 13 lookups after every operation; random: up to 12 operations over 7 "
+            "over proteins A,B,C (+unknown X), 13 lookups after every operation; random: up to 12 operations (incl. an outside edit of the group list followed by a re-index) over 7 "
             "proteins (half of the runs: 11 identifiers that differ by padding, letter case, a prefix or a marker only); non-trivial = at least one merge or add_unseen succeeded and the index was valid at some lookup")
 
     def gen(self, rng, tier):
@@ -133,8 +135,11 @@ class HistorySuite(Suite):
                     ops.append(["merge", rp(), rp()])
                 elif r < 0.7:
                     ops.append(["remove_empty"])
-                elif r < 0.85:
+                elif r < 0.82:
                     ops.append(["create_index"])
+                elif r < 0.9:
+                    # the group list is curated from outside (groups dropped, proteins taken out) and the object re-indexed
+                    ops.append(["replace", [[rp() for _ in range(rng.choice([0, 1, 2]))] for _ in range(rng.choice([0, 1, 2, 3]))]])
                 else:
                     ops.append(["add_unseen", [[rp() for _ in range(rng.choice([1, 2, 3]))] for _ in range(rng.choice([1, 2, 3]))]])
             lks = [["group", rp()] for _ in range(3)] + [[rng.choice(["idxs", "groups", "leading"]), [rp() for _ in range(rng.choice([1, 2, 3]))]] for _ in range(4)]
@@ -158,6 +163,9 @@ class HistorySuite(Suite):
                 elif k == "remove_empty":
                     pg.remove_empty_groups()
                 elif k == "create_index":
+                    pg.create_index()
+                elif k == "replace":
+                    pg.protein_groups = [list(g) for g in o[1]]
                     pg.create_index()
                 elif k == "add_unseen":
                     other = ProteinGroups([list(g) for g in o[1]])
